@@ -208,21 +208,31 @@ Theorem C03_split_records : forall (A : Type) n (h : list (nat * list A)) assign
   Permutation (concat (map (fun i => flatten (split_recv h assign i)) (seq 0 n))) (flatten h).
 Proof. exact split_records. Qed.
 
-(** Load / CompleteFileIterator behind SortBatches (as the readers call it): all the records in input order, as
-    ONE batch numbered 0 (no batch for no record) — for every partition and arrival order. *)
+(** Load / CompleteFileIterator (Load sorts the collected batches by number, stable): for every partition and EVERY
+    arrival order, with or without a SortBatches in front, all the records in input order, as ONE batch numbered 0
+    (no batch for no record). [C03_load_v0_refuted]: the code before the fix of Load (arrival order). *)
 Theorem C03_completefile : forall (A : Type) (bs : list (list A)) (h : list (nat * list A)),
   Permutation h (numbered_from 0 bs) ->
-  load (sortb h) = concat bs /\
-  completefile (sortb h) = match concat bs with [] => [] | l => [(0, l)] end.
+  load h = concat bs /\
+  completefile h = match concat bs with [] => [] | l => [(0, l)] end /\
+  load (sortb h) = concat bs.
 Proof. exact completefile_spec. Qed.
+Theorem C03_load_v0_refuted : exists (bs : list (list nat)) (h : list (nat * list nat)),
+  Permutation h (numbered_from 0 bs) /\ load_v0 h <> concat bs.
+Proof. exact load_v0_refuted. Qed.
 
-(** MakeIConditionalWorker under any schedule [e] of its workers: re-sequenced, the output is the worker applied
-    to the records that satisfy the condition, in input order (the others are not forwarded: transcribed). *)
+(** MakeIConditionalWorker under any schedule [e] of its workers: re-sequenced, the output is, in input order, the
+    worker applied to the records that satisfy the condition and the other records unchanged (after the fix of
+    SeqToSliceConditionalWorker; before it, [cond_worker_v0], they were dropped); no unselected record is lost. *)
 Theorem C03_conditional_worker : forall (A : Type) (c : A -> bool) (f : A -> list A) (bs : list (list A)) (h e : list (nat * list A)),
   Permutation h (numbered_from 0 bs) -> Permutation e (wmap (cond_worker c f) h) ->
   sortb e = numbered_from 0 (map (flat_map (cond_worker c f)) bs) /\
-  flatten (sortb e) = flat_map f (filter c (concat bs)).
+  flatten (sortb e) = flat_map (cond_worker c f) (concat bs) /\
+  (forall x, c x = true -> cond_worker c f x = f x) /\ (forall x, c x = false -> cond_worker c f x = [x]).
 Proof. exact cond_worker_sorted. Qed.
+Theorem C03_conditional_worker_keeps_unselected : forall (A : Type) (c : A -> bool) (f : A -> list A) (l : list A),
+  incl (filter (fun x => negb (c x)) l) (flat_map (cond_worker c f) l).
+Proof. exact cond_worker_keeps_unselected. Qed.
 
 (** paired streams: PairedWith keeps numbers and order; FilterAnd on a paired stream keeps exactly the pairs whose
     two mates satisfy the predicate, in order, in batches 0..m-1, and the stream of mates is the mates of the
@@ -353,3 +363,5 @@ Print Assumptions C03_protocol_bounded.
 Print Assumptions C03_protocol_maximal_run.
 Print Assumptions C03_protocol_instances.
 Print Assumptions C03_protocol_trace_sound.
+Print Assumptions C03_load_v0_refuted.
+Print Assumptions C03_conditional_worker_keeps_unselected.
